@@ -30,3 +30,25 @@ pub fn c19_t_real_chachapoly_reject_leaves_ciphertext() {
         assert!(out[1] == 0xEE && out[2] == 0xEE && out[3] == 0xEE, "C19: bytes beyond the message were written");
     }
 }
+
+/// Same for the real AES-256-GCM wrapper (soft AES + soft POLYVAL).
+#[kani::proof]
+#[kani::unwind(70)]
+#[kani::stub(zeroize::barrier::optimization_barrier, no_barrier)]
+pub fn c19_t_real_aesgcm_reject_leaves_ciphertext() {
+    let n: u64 = kani::any();
+    let mut c = DefaultResolver.resolve_cipher(&CipherChoice::AESGCM).unwrap();
+    c.set(&KEY);
+    let body: [u8; 1] = kani::any();
+    let tagbyte: u8 = kani::any();
+    let mut ct = [0u8; 17];
+    ct[0] = body[0];
+    ct[1] = tagbyte;
+    let mut out = [0xEEu8; 4];
+    let r = c.decrypt(n, &[], &ct, &mut out[..1]);
+    kani::cover!(r.is_err(), "C19 real AESGCM rejection reachable");
+    if r.is_err() {
+        assert!(out[0] == body[0], "C19: after a rejected AESGCM decrypt the output holds something other than the ciphertext copy");
+        assert!(out[1] == 0xEE && out[2] == 0xEE && out[3] == 0xEE, "C19: bytes beyond the message were written");
+    }
+}
